@@ -84,7 +84,7 @@ def generate(R: Draw, tier: str) -> dict:
             if R.bool(0.5):
                 b = mu.mutate(R, g, b)
             return {"schema": sref, "a": a, "kind": "mutate", "b": b, "structured": True}
-    case = {"schema": sref, "a": a, "kind": kind}
+    case = {"schema": sref, "a": a, "kind": kind, "shared_marks": R.bool(0.5)}
     if kind == "mutate":
         b = a
         for _ in range(R.weighted([(1, 6), (2, 2), (3, 1)])):
@@ -125,7 +125,11 @@ def check(case: dict, ctx: Ctx) -> None:
     if case.get("structured"):
         ctx.label("attrs:structured-values")
     a_plain = case["a"]
-    a = P.build(lib, a_plain)
+    # one side may carry the shared all-defaults mark instances (what schema.mark(name) hands out), the other side
+    # always separately constructed, equal marks
+    a = P.build(lib, a_plain, shared_marks=bool(case.get("shared_marks")))
+    if case.get("shared_marks"):
+        ctx.label("marks:shared-default-instances-on-one-side")
     kind = case["kind"]
     if kind == "mutate":
         b_plain = case["b"]
